@@ -129,7 +129,7 @@ def kf_c16_mosek_status():
 WITNESS = {
     "KF-C13-stale-cache": kf_c13_stale_cache, "KF-C13-objective-leaf": kf_c13_objective_leaf,
     "KF-C13-partition-growth": kf_c13_partition_growth, "KF-C17-blocksmooth-tables": kf_c17_blocksmooth,
-    "KF-C17-linear-operator-tables": kf_c17_linop, "KF-C01-nonsymmetric-lmi": kf_c01_nonsym_lmi,
+    "KF-C17-linear-operator-tables": kf_c17_linop, "KF-C17-linear-operator-names": kf_c17_linop, "KF-C01-nonsymmetric-lmi": kf_c01_nonsym_lmi,
     "KF-C04-skew-diagonal": kf_c04_skew_diagonal, "KF-C16-mosek-status": kf_c16_mosek_status,
 }
 
